@@ -182,6 +182,13 @@ def observe_dump(w, fmt, root, how='inproc', debug=False):
             touched.append(f[:-len(sfx)])
         else:
             touched.append('?' + f)          # a stray file counts as an unreported file
+    index = []
+    if idx and fmt == 'json':
+        try:
+            with open(os.path.join(dst, 'index.json')) as fh:
+                index = [{'oid': [int(x) for x in k.split('.')], 'mods': list(v)} for k, v in json.load(fh).get('oids', {}).items()]
+        except (OSError, ValueError):
+            index = [{'oid': [], 'mods': ['<unreadable index>']}]
     rep, dry = cli.parse_dump_report(r['stderr'])
     comp = r.get('compiles', [])
     completed = bool(comp) and 'processed' in comp[0]
@@ -189,9 +196,9 @@ def observe_dump(w, fmt, root, how='inproc', debug=False):
     obs = {'exit': r['exit'], 'reported': rep is not None,
            'report': {c: sorted((rep or {}).get(c, [])) for c in ('compiled', 'untouched', 'failed', 'unprocessed', 'missing', 'borrowed')},
            'proc': proc, 'ncompiles': len(comp), 'completed': completed, 'written': sorted(touched),
-           'removed': removed, 'idx': idx}
+           'removed': removed, 'idx': idx, 'index': index}
     if how != 'inproc':
-        obs.pop('proc'), obs.pop('ncompiles'), obs.pop('completed')
+        obs.pop('proc'), obs.pop('ncompiles'), obs.pop('completed'), obs.pop('index')
     extra = {'argv': argv, 'stderr_tail': r['stderr'][-600:], 'escaped': r.get('escaped'),
              'cwd_litter': sorted(x for x in os.listdir(root) if x not in ('src', 'src2', 'bor', 'dst'))}
     return obs, extra
@@ -221,7 +228,7 @@ def brief_world(w, fmt):
         w['texts'], w['usage'], '+'.join(flags))
 
 
-def run_dump(out, prop, tier, seed, only_slices=None):
+def run_dump(out, prop, tier, seed, only_slices=None, only_formulas=None):
     rnd = random.Random(seed)
     base = tlc.mkscratch('dump-')
     for label, fmt, dom, keep, cap in DUMP_SLICES[tier]:
@@ -281,13 +288,17 @@ def run_dump(out, prop, tier, seed, only_slices=None):
             failed = list(v['failed'])
             if v['noreport']:
                 failed.append('CompletedRunsReport')
+            if only_formulas is not None:
+                failed = [f for f in failed if f in only_formulas]
             for f in failed:
                 sig = 'formula=%s;%s' % (f, dump_witness(f, w, fmt, obs, extra))
                 out.violation(sig, 'mibdump: %s fails for %s (exit %s)' % (f, brief_world(w, fmt), obs['exit']), rp)
-            if not failed and v['drift'] != 'ok':
+            if not failed and v['drift'] != 'ok' and only_formulas is None:
                 out.add_drift('mibdump %s differs from MibDump.tla for %s: observed exit=%s proc=%s written=%s; model exit=%s proc=%s written=%s' % (
                     v['drift'], brief_world(w, fmt), obs['exit'], {p['name']: p['st'] for p in obs['proc']}, obs['written'],
                     v['mexit'], {p['name']: p['st'] for p in v['mproc']}, v['mfiles']))
+    if only_formulas is not None:
+        return
     never = [a for a in ('DArgs', 'DCompile', 'DIndex', 'DReport', 'DExit') if out.extra.get('action_coverage', {}).get(a, 0) == 0]
     if never and not only_slices:
         out.machinery_errors.append('actions of MibDump never taken in this run (vacuous): %s' % never)
